@@ -48,6 +48,9 @@ type Table struct {
 	// Arr: an array or slice literal of Len elements; the indices without an entry hold the zero value of ElemT
 	Arr bool
 	Len int
+	// Struct: a struct literal (a row of a table of structs): the keys are the field names, a field the literal
+	// leaves out holds the zero value of its type
+	Struct *types.Struct
 }
 
 // tableTypes returns key and element type when t is a type the table model represents.
@@ -83,6 +86,7 @@ const (
 	VNilTable            // nil map
 	VPending             // unresolved initialiser expression
 	VAmbiguous           // result depends on map iteration order
+	VTuple               // the results of a multi-result function (Elems)
 )
 
 type Value struct {
@@ -92,6 +96,8 @@ type Value struct {
 	T    *Table
 	Type types.Type
 	Why  string
+	// Elems: the components of a VTuple
+	Elems []Value
 }
 
 func (v Value) String() string {
@@ -171,6 +177,7 @@ type Facts struct {
 	Problems []string
 	// TableProblems: what the table model could not represent, per table (Problems holds the same texts)
 	TableProblems []TableProblem
+	zeroStructs   map[*types.Struct]*Table
 }
 
 func Build(p *load.Program) *Facts {
@@ -257,6 +264,16 @@ func (f *Facts) collectTables(pk *packages.Package) {
 						continue
 					}
 					kt, et, arr, ok := tableTypes(v.Type())
+					if st, isStruct := v.Type().Underlying().(*types.Struct); isStruct && i < len(vs.Values) {
+						// a package-level struct literal whose fields are data (a merged table row, a template row)
+						if cl, isLit := ast.Unparen(vs.Values[i]).(*ast.CompositeLit); isLit && dataStruct(st) {
+							t := &Table{Var: v, Name: v.Name(), Pkg: pk, Pos: name.Pos(), KeyT: types.Typ[types.String], Struct: st}
+							f.Tables[v] = t
+							f.AllTabs = append(f.AllTabs, t)
+							f.fillStruct(t, cl)
+						}
+						continue
+					}
 					if !ok {
 						continue
 					}
@@ -305,16 +322,11 @@ func (t *Table) Root() *Table {
 // IsData: the table's cells (through nested maps) are strings, numbers, booleans or enumeration values - the
 // kind of table the specification's code, weight and name tables are; a map of functions or structs is not.
 func (t *Table) IsData() bool {
-	elem := t.Root().ElemT
-	for {
-		_, et, _, ok := tableTypes(elem)
-		if !ok {
-			break
-		}
-		elem = et
+	r := t.Root()
+	if r.Struct != nil {
+		return dataStruct(r.Struct)
 	}
-	_, ok := elem.Underlying().(*types.Basic)
-	return ok
+	return dataType(r.ElemT, 0)
 }
 
 func (f *Facts) fillTable(t *Table, cl *ast.CompositeLit) {
@@ -355,6 +367,13 @@ func (f *Facts) fillTable(t *Table, cl *ast.CompositeLit) {
 			f.problem(t, fmt.Sprintf("%s: table %s has a key that is neither a constant nor a package-level value", f.Prog.Pos(kv.Key.Pos()), t.Name))
 		}
 		if sub, ok := ast.Unparen(e.ValExpr).(*ast.CompositeLit); ok {
+			if st, isStruct := info.TypeOf(sub).Underlying().(*types.Struct); isStruct {
+				row := &Table{Name: t.Name + "[" + e.Key.String() + "]", Pkg: t.Pkg, Pos: sub.Pos(), KeyT: types.Typ[types.String], Struct: st, Parent: t}
+				f.fillStruct(row, sub)
+				e.Val = Value{Kind: VTable, T: row}
+				t.Entries = append(t.Entries, e)
+				continue
+			}
 			// the literal's type may be elided; go/types records it all the same
 			if kt, et, arr, ok := tableTypes(info.TypeOf(sub)); ok {
 				st := &Table{Name: t.Name + "[" + e.Key.String() + "]", Pkg: t.Pkg, Pos: sub.Pos(), KeyT: kt, ElemT: et, Arr: arr, Parent: t}
@@ -370,6 +389,91 @@ func (f *Facts) fillTable(t *Table, cl *ast.CompositeLit) {
 		}
 		t.Entries = append(t.Entries, e)
 	}
+}
+
+// dataStruct: every field is a string, number, boolean, or again such a struct, array, slice or map of them.
+func dataStruct(st *types.Struct) bool {
+	for i := 0; i < st.NumFields(); i++ {
+		if !dataType(st.Field(i).Type(), 0) {
+			return false
+		}
+	}
+	return true
+}
+
+func dataType(t types.Type, depth int) bool {
+	if depth > 6 {
+		return false
+	}
+	switch u := t.Underlying().(type) {
+	case *types.Basic:
+		return true
+	case *types.Struct:
+		for i := 0; i < u.NumFields(); i++ {
+			if !dataType(u.Field(i).Type(), depth+1) {
+				return false
+			}
+		}
+		return true
+	case *types.Map:
+		return dataType(u.Elem(), depth+1) // whatever the keys are (enumeration values, language tags)
+	case *types.Array:
+		return dataType(u.Elem(), depth+1)
+	case *types.Slice:
+		return dataType(u.Elem(), depth+1)
+	}
+	return false
+}
+
+// fillStruct records the fields a struct literal spells out (positional or keyed).
+func (f *Facts) fillStruct(t *Table, cl *ast.CompositeLit) {
+	info := t.Pkg.TypesInfo
+	for i, el := range cl.Elts {
+		var fv *types.Var
+		valExpr := el
+		if kv, ok := el.(*ast.KeyValueExpr); ok {
+			if id, ok := kv.Key.(*ast.Ident); ok {
+				fv, _ = info.Uses[id].(*types.Var)
+			}
+			valExpr = kv.Value
+		} else if i < t.Struct.NumFields() {
+			fv = t.Struct.Field(i)
+		}
+		if fv == nil {
+			f.problem(t, fmt.Sprintf("%s: table %s: struct literal element without a resolvable field", f.Prog.Pos(el.Pos()), t.Name))
+			continue
+		}
+		e := &Entry{Key: StringValue(fv.Name()), ValExpr: valExpr, Pos: el.Pos()}
+		if sub, ok := ast.Unparen(valExpr).(*ast.CompositeLit); ok {
+			if st, isStruct := info.TypeOf(sub).Underlying().(*types.Struct); isStruct {
+				row := &Table{Name: t.Name + "." + fv.Name(), Pkg: t.Pkg, Pos: sub.Pos(), KeyT: types.Typ[types.String], Struct: st, Parent: t}
+				f.fillStruct(row, sub)
+				e.Val = Value{Kind: VTable, T: row}
+				t.Entries = append(t.Entries, e)
+				continue
+			}
+			if kt, et, arr, ok := tableTypes(info.TypeOf(sub)); ok {
+				st := &Table{Name: t.Name + "." + fv.Name(), Pkg: t.Pkg, Pos: sub.Pos(), KeyT: kt, ElemT: et, Arr: arr, Parent: t}
+				f.fillTable(st, sub)
+				e.Val = Value{Kind: VTable, T: st}
+				t.Entries = append(t.Entries, e)
+				continue
+			}
+		}
+		e.Val = f.StaticValue(info, valExpr)
+		if e.Val.Kind == VInvalid {
+			e.Val = Value{Kind: VPending}
+		}
+		t.Entries = append(t.Entries, e)
+	}
+}
+
+// Field returns the value of a struct row's field: what the literal says, or the zero value of the field's type.
+func (f *Facts) Field(t *Table, fv *types.Var) Value {
+	if v, ok := t.Lookup(StringValue(fv.Name())); ok {
+		return v
+	}
+	return f.ZeroOf(fv.Type())
 }
 
 // staticValue classifies an initialiser expression: constant, named constant,
@@ -447,6 +551,35 @@ func (t *Table) Lookup(key Value) (Value, bool) {
 	return Value{}, false
 }
 
+// Strings returns every string constant that occurs as a key or a value in the table or in the tables nested in
+// it (rows of structs, nested maps).
+func (t *Table) Strings() []string {
+	var out []string
+	var walk func(t *Table, depth int)
+	add := func(v Value) {
+		if v.Kind == VConst && v.C != nil && v.C.Kind() == constant.String {
+			out = append(out, constant.StringVal(v.C))
+		}
+	}
+	walk = func(t *Table, depth int) {
+		if depth > 6 {
+			return
+		}
+		for _, e := range t.Entries {
+			if t.Struct == nil {
+				add(e.Key)
+			}
+			if e.Val.Kind == VTable && e.Val.T != nil {
+				walk(e.Val.T, depth+1)
+			} else {
+				add(e.Val)
+			}
+		}
+	}
+	walk(t, 0)
+	return out
+}
+
 // InRange: key is a valid index of an array table.
 func (t *Table) InRange(key Value) bool {
 	c, ok := numOf(key)
@@ -504,6 +637,20 @@ func (f *Facts) ZeroOf(t types.Type) Value {
 		}
 	case *types.Map:
 		return Value{Kind: VNilTable, Type: t}
+	case *types.Slice:
+		return Value{Kind: VNilTable, Type: t}
+	case *types.Struct:
+		if dataStruct(u) {
+			if f.zeroStructs == nil {
+				f.zeroStructs = map[*types.Struct]*Table{}
+			}
+			z := f.zeroStructs[u]
+			if z == nil {
+				z = &Table{Name: "zero " + t.String(), KeyT: types.Typ[types.String], Struct: u}
+				f.zeroStructs[u] = z
+			}
+			return Value{Kind: VTable, T: z, Type: t}
+		}
 	}
 	return Value{Kind: VInvalid, Why: "no abstract zero value for " + t.String()}
 }
